@@ -309,6 +309,13 @@ def subLoop (lines : List Str) (isTranslation : Bool) : Nat → Str → Nat → 
       (lineAt lines (lineIndex + 1)).bind fun line' =>
         subLoop lines isTranslation f qualifier (lineIndex + 1) line'
 
+/-- `if len(attributeSplit) < 2 { "" } else { strings.Trim(strings.TrimSpace(attributeSplit[1]), "\"") }`
+(`SplitN(…, 2)` gives one or two fields) -/
+def attributeValueOf (attributeSplit : List Str) : Str :=
+  match attributeSplit with
+  | [_, v] => trim (trimSpace v) c!"\""
+  | _ => []
+
 /-- the qualifier loop (lines 534-578): state = (Attributes, lineIndex, line); returns the map and
 the final lineIndex -/
 def qualLoop (lines : List Str) : Nat → List (Str × Str) → Nat → Str → Outcome (List (Str × Str) × Nat)
@@ -322,10 +329,7 @@ def qualLoop (lines : List Str) : Nat → List (Str × Str) → Nat → Str → 
           fun (qualifier, lineIndex', line'') =>
             let attributeSplit := splitN2 '=' (trimSpace qualifier)
             let attributeLabel := trimPrefix (trimSpace (headOf attributeSplit)) c!"/"
-            let attributeValue : Str :=
-              match attributeSplit with
-              | [_, v] => trim (trimSpace v) c!"\""
-              | _ => []
+            let attributeValue : Str := attributeValueOf attributeSplit
             qualLoop lines f (mapInsert attrs attributeLabel attributeValue) lineIndex' line''
 
 /-- the feature loop (lines 491-583) -/
